@@ -90,14 +90,14 @@ def build(tier, workdir, seed, prop=PROP):
             'trusted_base': sorted(set(sum([list(u.std.used) for u in units], []))) + ['clang 14 AST; xtl2c lowering rules (DESIGN.md 3.2)',
                 'std::char_traits / std::copy / std::copy_backward model in model/xv_chr.h: C with loop contracts discharged in place (search proofs: exact, unwound to capacity + 3)'],
             'assumptions': ['configurations: char; packed layout N=7 (all functions under contract) and N=255 (storage class + light functions; copy-loop functions in the thorough tier), size-field layout N=256 (same split); throwing policy; NDEBUG as in the test build',
-                            'the strlen-sized (numpy) layout is under contract for N=7 (configuration z7: size() == position of the first NUL, characters written must be non-NUL, every loop unwound to the capacity); wchar_t/char16_t, the silent policy and the overloads taking std::string / initializer_list / iterators / C strings are NOT under contract (listed in not_reached)',
+                            'the strlen-sized (numpy) layout is under contract for N=7 (configuration z7: size() == position of the first NUL, characters written must be non-NUL, every loop unwound to the capacity); wchar_t/char16_t, the silent policy and the initializer_list overloads are NOT under contract (listed in not_reached); the forwarding overloads (std::string, fixed-string, iterator-range, C-string sources, iterator positions) are under contract on the small packed configuration (N=7) in the quick tier, C strings of up to 4N characters',
                             'N is a compile-time constant: "every N" is covered by the boundary capacities where the layout selection flips (255 / 256) and a small one',
                             'counted-needle search overloads are not under contract (nested unwinding did not finish); the character overloads with explicit and with DEFAULTED position are, for capacity 7, by complete unwinding',
                             'histories: every operation is proved from an arbitrary wf state (any length 0..N, any bytes incl. stale bytes after the terminator), induction over the history is the meta-argument',
                             'precondition taken from the property: size() + count does not overflow size_t; counts of fresh argument ranges bounded by 4N'],
             'coverage_extra': {'configs': cfgs, 'heavy_functions_in_this_tier': bool(heavy),
-                               'not_reached': ['strlen-sized layout for capacities other than 7; compare() in that layout', 'silent_error policy', 'char16_t / wchar_t', 'std::string / initializer_list / iterator-pair / C-string overloads',
-                                               'operator+ family, stream operators, getline, swap, substr', 'find/rfind/find_*_of with a counted needle']}}
+                               'not_reached': ['strlen-sized layout for capacities other than 7; compare() and the forwarding overloads in that layout', 'silent_error policy', 'char16_t / wchar_t', 'initializer_list overloads; the conversion to std::string; constructors other than through assign',
+                                               'forwarding overloads (std::string / fixed-string / iterator / C-string sources) at N=255/256 in the quick tier', 'operator+ family, stream operators, getline', 'find/rfind/find_*_of with a counted needle, a C string or a std::string']}}
 
 
 SAN = ['-fsanitize=address,undefined', '-fno-sanitize-recover=all', '-O1', '-DNDEBUG']
